@@ -13,6 +13,7 @@ import (
 	"fmt"
 	"io"
 	"math"
+	"strconv"
 	"sync"
 
 	"github.com/tobgu/qframe"
@@ -274,7 +275,7 @@ func sqlReadSection(r *tx.Rng, w *tx.W, size int, opt map[string]string) {
 				row[c] = r.Bool()
 			case 3:
 				if coerce[c] == 2 {
-					row[c] = []string{"1.5", "2", "-0.25", "x"}[r.Intn(4-btoi(r.P(9, 10)))]
+					row[c] = []string{"1.5", "2", "-0.25", "2.71828", "-10.00499", "0.333333", "1.005", "x"}[r.Intn(8-btoi(r.P(9, 10)))]
 				} else {
 					row[c] = strAlphabet[r.Intn(len(strAlphabet))]
 				}
@@ -294,6 +295,12 @@ func sqlReadSection(r *tx.Rng, w *tx.W, size int, opt map[string]string) {
 			for c, v := range row {
 				if f, ok := v.(float64); ok && kinds[c] == 1 {
 					w.Line("XF", tx.CFloat(f), tx.Int(precision), tx.CFloat(fixedRef(f, precision)))
+				}
+				// the configured precision applies to coerced text values as well
+				if t, ok := v.(string); ok && coerce[c] == 2 {
+					if f, err := strconv.ParseFloat(t, 64); err == nil {
+						w.Line("XF", tx.CFloat(f), tx.Int(precision), tx.CFloat(fixedRef(f, precision)))
+					}
 				}
 			}
 		}
